@@ -1133,6 +1133,9 @@ func (u *Unit) run(st *State, fr *Frame, b *ssa.BasicBlock, idx int) []Outcome {
 				st0 := p.Typ.Underlying().(*types.Struct)
 				fr.regs[in] = ElemPtr{R: p.R, Idx: p.Idx, Path: fmt.Sprintf("%s.%d", p.Path, in.Field), Typ: st0.Field(in.Field).Type()}
 			default:
+				if _, isG := p.(GlobalPtr); isG {
+					u.frameViolation(st, fr, in) // address of a mutable package-level variable: shared state (C18)
+				}
 				u.unsupported("fieldaddr on %T", p)
 				return nil
 			}
@@ -1164,6 +1167,9 @@ func (u *Unit) run(st *State, fr *Frame, b *ssa.BasicBlock, idx int) []Outcome {
 				et := in.X.Type().Underlying().(*types.Pointer).Elem().Underlying().(*types.Array).Elem()
 				fr.regs[in] = ElemPtr{R: av.R, Idx: it, Typ: et}
 			default:
+				if _, isG := x.(GlobalPtr); isG {
+					u.frameViolation(st, fr, in) // element of a mutable package-level variable: shared state (C18)
+				}
 				u.unsupported("indexaddr on %T", x)
 				return nil
 			}
@@ -1412,6 +1418,9 @@ func (u *Unit) doSlice(st *State, fr *Frame, in *ssa.Slice) bool {
 		}
 		baseR, off, ln, cp = av.R, IntK(0), IntK(av.N), IntK(av.N)
 	default:
+		if _, isG := x.(GlobalPtr); isG {
+			u.frameViolation(st, fr, in) // slice of a mutable package-level array: shared state (C18)
+		}
 		u.unsupported("slice of %T", x)
 		return false
 	}
